@@ -110,10 +110,10 @@ def run(pid, tier, seed, replay):
                     c["id"] = k
                     f.write(json.dumps(c) + "\n")
         runs.append((mode, out))
-    if tier == "thorough":
+    if True:
         rbin = vlib.build_overlay_test(wd, "cmd/mcrew", files, race=True)
         out = os.path.join(wd, "race_stress.ndjson")
-        txt = drive(rbin, wd, "timers", out, VERIF_TIMERS="stress", VERIF_SEED=seed + 7, VERIF_N=60, GORACE="halt_on_error=0")
+        txt = drive(rbin, wd, "timers", out, VERIF_TIMERS="stress", VERIF_SEED=seed + 7, VERIF_N=20 if tier == "quick" else 60, GORACE="halt_on_error=0")
         if "WARNING: DATA RACE" in txt:
             rep.reject("data race reported by the race detector (mcrew timers stress)", [], {"property": pid, "race": txt[-4000:]})
         runs.append(("stress-race", out))
